@@ -96,6 +96,9 @@ func (n *sexp) hasBinder() bool {
 }
 
 func autoPatterns(body string, bvs []string) []string {
+	if len(bvs) == 2 {
+		return autoPatterns2(body, bvs)
+	}
 	if len(bvs) != 1 {
 		return nil
 	}
